@@ -191,7 +191,7 @@ class SqliteMap(BaseMap):
         :return: (lat_min, lon_min, lat_max, lon_max) or (y_min, x_min, y_max, x_max)
         """
         c = self.db.cursor()
-        c.execute('SELECT min(minX), max(minX), min(maxX), max(maxX) FROM nodes_index;')
+        c.execute('SELECT min(minX), max(maxX), min(minY), max(maxY) FROM nodes_index;')
         lon_min, lon_max, lat_min, lat_max = c.fetchone()
         return lat_min, lon_min, lat_max, lon_max
 
